@@ -596,6 +596,47 @@ def rule_handle(P, E):
     return r
 
 
+def rule_write_cb(P, E):
+    """evhttp_write_buffer installs the completion callback it is given - NULL included.  evhttp_write_cb runs evcon->cb every time the output drains; a callback left over from the
+    previous reply on a persistent connection (evhttp_send_done) would complete - and free - the request that is being streamed now."""
+    r = Rule("C27-write-cb", "K6", "evhttp_write_buffer replaces the connection's write-completion callback and its argument by exactly what it is given, NULL included", floor=6)
+    f = P.fn("evhttp_write_buffer")
+    ev = ["var", f.params[0][0], "param"]
+    kcb, karg = nkey(["fld", ev, "evhttp_connection.cb", "->"]), nkey(["fld", ev, "evhttp_connection.cb_arg", "->"])
+    for cb in (0, 9):
+        for arg in (0, 4):
+            for old in ((0, 0), (5, 6)):
+                env = {"#typed": 1, "event_debug_logging_mask_": 0, f.params[0][0]: 1, f.params[1][0]: cb, f.params[2][0]: arg, kcb: old[0], karg: old[1]}
+
+                def hook(el, e_):
+                    if callee_name(el.e) in ("bufferevent_setcb", "bufferevent_enable", "event_debugx_"):
+                        return 0
+                    return None
+                for o in run_all(f, (f.entry, 0), env, lambda el: False, P, hook, max_steps=300):
+                    if o.kind == "exit" and o.why == "noreturn":
+                        continue
+                    if o.kind == "unknown":
+                        r.brk("evhttp_write_buffer: %s" % o.why)
+                        return r
+                    got = (o.env.get(kcb), o.env.get(karg))
+                    r.inst((cb, arg, old), {"given": [cb, arg], "before": list(old), "after": list(got)})
+                    if got != (cb, arg):
+                        r.bad("K6:evhttp_write_buffer:callback-not-replaced", "%s:%d" % (f.file, f.line), f.name,
+                              "given callback %s / argument %s with %s installed before: afterwards %s is installed (a completion callback left over from the previous reply would run for this one)" % (cb or "NULL", arg or "NULL", old, got))
+    g = P.fn("evhttp_write_cb")
+    calls = [el for el in g.calls() if isinstance(el.e[1], list) and el.e[1] and el.e[1][0] in ("slot", "ptr")]
+    r.inst("fires", {"fn": g.name, "indirect_calls": [show(c.e)[:60] for c in calls]})
+    if len(calls) != 1:
+        r.brk("evhttp_write_cb: expected one call through evcon->cb, found %d" % len(calls))
+    seen, uniq = set(), []
+    for f_ in r.findings:
+        if f_.key not in seen:
+            seen.add(f_.key)
+            uniq.append(f_)
+    r.findings = uniq
+    return r
+
+
 def run(ctx, config):
     P = ctx.prog(UNITS, config)
     E = enumvals(P)
@@ -608,7 +649,7 @@ def run(ctx, config):
             rr.brk("flag macro %s not found in http.c" % n)
             return [rr]
     rules = []
-    for mk in (rule_done, rule_fail, rule_incoming_fail, rule_cancel, rule_send_done, rule_make, rule_release, rule_retry_state, rule_cleanup, rule_teardown, rule_handle):
+    for mk in (rule_done, rule_fail, rule_incoming_fail, rule_cancel, rule_send_done, rule_make, rule_release, rule_retry_state, rule_cleanup, rule_teardown, rule_handle, rule_write_cb):
         try:
             rules.append(mk(P, E))
         except AnalysisBroken as ex:
